@@ -100,6 +100,7 @@ def gen_cases(rng, tier):
         cases.append({"kind": "addr", "seed": rng.randrange(1 << 30), "n": n, "kspace": 10 * n + 10, "vmax": rng.choice([1, 8, 40]),
                       "routes": ["bulk", "incr", "insdel"]})
     cases += [dict(c) for c in CLOSURE_WITNESS]
+    cases.append({"kind": "json", "seed": 4, "n": 3000, "vmin": 20, "vmax": 200, "routes": ["bulk", "set", "insert", "remove"]})
     for _ in range(5 if quick else 80):
         n = rng.choice([0, 1, 40, 600, 2000, 4000])
         cases.append({"kind": "closure", "seed": rng.randrange(1 << 30), "n": n, "kspace": rng.choice([3, 200, 100000]),
